@@ -2,7 +2,7 @@
 from .C02 import e2_jobs, META as _M
 
 META = dict(_M)
-CLASSES = ["contracts.C07_all:TensorProduct", "contracts.C07_all:ProductStatistics", "contracts.C07_all:PermutationMatrix",
+CLASSES = ["contracts.C07_all:TensorProduct", "contracts.C07_all:ProductStatistics", "contracts.C07_all:PermutationMatrix", "contracts.C07_all:DenseBasisProduct",
            "contracts.C07_all:EmbeddingStatePovm", "contracts.C07_all:EmbeddingChannels", "contracts.C07_all:EmbeddingPermutation",
            "contracts.C07_all:EmbeddingTwoQutrits"]
 
@@ -13,5 +13,5 @@ def jobs(tier, seed):
 
 CLAIM = {'engine': 'E2-symtwin', 'level': 'proof',
  'text': 'tensor_product is executed unmodified on symbolic factors (pairwise different outcome counts) for every permutation of subsystem names, dimensions in {2,3}, 2-3 subsystems (4 for states), left-folded and right-nested groupings; the result is proved to be the Kronecker product of the factors in ascending subsystem name, laid out row-major in the REPORTED outcome shape; the composite basis is proved to be the Kronecker product of the elemental bases; product measurements on product states are proved to give product statistics; embedding a qutrit state or POVM into two qubits is proved to give the isometric image (physicality and statistics of embedded inputs preserved).',
- 'note': 'all-inputs@config. calc_permutation_matrix has only discrete inputs: it is additionally enumerated over all name permutations / block sizes in scope and reported as a bounded stand-in (not counted as proved). The qutrit->two-qubit embedding (one qutrit) is proved for symbolic states and POVMs (isometric image, complement padded with I/m, up to the documented truncation; image statistics lemma); for gates and measurement processes the embedding goes through an eigendecomposition (Kraus extraction) and is checked on six concrete non-unitary channels / instruments (trace preservation, complete positivity, action on embedded states) as a bounded stand-in, not counted as proved. Floats as reals.',
+ 'note': 'all-inputs@config. tensor_product on plain dense MatrixBasis objects (a branch CompositeSystem does not use) is enumerated over ordered pairs / triples of different catalogue bases (product basis == kron of the arguments, first argument outermost) as a bounded stand-in. calc_permutation_matrix has only discrete inputs: it is additionally enumerated over all name permutations / block sizes in scope and reported as a bounded stand-in (not counted as proved). The qutrit->two-qubit embedding (one qutrit) is proved for symbolic states and POVMs (isometric image, complement padded with I/m, up to the documented truncation; image statistics lemma); for gates and measurement processes the embedding goes through an eigendecomposition (Kraus extraction) and is checked on six concrete non-unitary channels / instruments (trace preservation, complete positivity, action on embedded states) as a bounded stand-in, not counted as proved. Floats as reals.',
  'technique': 'contract-based deductive verification (symbolic execution of the real source -> VCs, normaliser + z3)'}
